@@ -661,7 +661,14 @@ class Ctx:
             if m is None:
                 continue
             lines = [json.dumps(x, sort_keys=True) for x in m]
-            acc = self._judge_chunk(trace_spec, [lines], base_cfg, constants, kf, timeout, dfs, "selftest", single=True)
+            try:
+                acc = self._judge_chunk(trace_spec, [lines], base_cfg, constants, kf, timeout, dfs, "selftest", single=True)
+            except Infra as ex:
+                # TLC could not even evaluate the corrupted execution (e.g. a field of the wrong shape):
+                # it is certainly not accepted
+                self.selftests.append({"spec": trace_spec, "rejected_corrupted_execution": True,
+                                       "note": "TLC evaluation error on the corrupted execution: " + str(ex)[:200]})
+                return
             ok = not acc.get(1)
             self.selftests.append({"spec": trace_spec, "rejected_corrupted_execution": ok,
                                    "at_event": self.last_highwater})
